@@ -249,8 +249,8 @@ FormulaRec(it) ==
       bagR == CASE it.op \in {"add", "iadd"} -> BAdd(bag, bag2)
                 [] it.op \in {"addin", "addel"} -> BAdd(bag, BScale(it.n[1], BUnit(it.v)))
                 [] OTHER -> bag
-      nv   == IF it.op \in {"addin", "addel", "addsum", "addopnd"} THEN BScale(it.n[1], BUnit(it.v)) ELSE BZero
-      all  == BAdd(BAdd(bagR, bag2), nv)
+      bagV   == IF it.op \in {"addin", "addel", "addsum", "addopnd"} THEN BScale(it.n[1], BUnit(it.v)) ELSE BZero
+      all  == BAdd(BAdd(bagR, bag2), bagV)
       used == {v \in Vars : all[v] > 0}
       badsp == \E v \in used : ~SpValid(it.bind[v])
       unsp  == ~badsp /\ \E v \in used : SpUnspecified(it.bind[v], it.natural)
@@ -268,8 +268,8 @@ FormulaRec(it) ==
                ELSE O("A.", bag, 1)
                     \o (CASE it.op = "add"     -> O("R.", bagR, 1) \o O("A2.", bag, 1) \o O("B.", bag2, 1)
                            [] it.op = "mul"     -> O("R.", BScale(it.n[1], bag), it.n[2]) \o O("A2.", bag, 1)
-                           [] it.op = "addsum"  -> O("R.", BAdd(BAdd(bag, bag2), nv), 1) \o O("A2.", bag, 1) \o O("B.", bag2, 1)
-                           [] it.op = "addopnd" -> O("R.", BAdd(bag, bag2), 1) \o O("A2.", bag, 1) \o O("B.", BAdd(bag2, nv), 1)
+                           [] it.op = "addsum"  -> O("R.", BAdd(BAdd(bag, bag2), bagV), 1) \o O("A2.", bag, 1) \o O("B.", bag2, 1)
+                           [] it.op = "addopnd" -> O("R.", BAdd(bag, bag2), 1) \o O("A2.", bag, 1) \o O("B.", BAdd(bag2, bagV), 1)
                            [] it.op = "iadd"    -> O("R.", bagR, 1) \o O("B.", bag2, 1)
                            [] it.op = "imul"    -> O("R.", BScale(it.n[1], bag), it.n[2])
                            [] it.op = "addel"   -> O("R.", bagR, 1) \o O("A2.", bag, 1)
